@@ -11,7 +11,10 @@ Values: `{"n":"num/den"}` number, `{"nf":"nan"|"inf"|"-inf"}`, `{"s":"text"}`, `
 * `{"op":"scenario","preset":null|n,"old":bool,"jobs":[{"id":n,"args":[[k,V]..],"status":S,
     "meta0":[[k,V]..],"out":V,"tg":V}..],"ops":[[count,flush]..],"order":[..]}`
   -> per job what `set_output`+`_on_done` leave, per op the branch / header / lines written /
-  state, the final table and the `pareto_efficient` column.
+  state / table so far, the final table and the `pareto_efficient` column.
+  An op may also be `[count,flush,order]` (the Pareto step runs after this dump: end of a
+  `search()` call) or `{"new_search":"fresh"|"reuse"}` (a new `Search` object is constructed on
+  the log_dir with a fresh evaluator / the previous evaluator instance: `searchInit`).
 -/
 
 open Lean DH.Wire DH.Dump
@@ -131,10 +134,31 @@ def handle (j : Json) : Except String Json := do
     let mut tbl : Table := Table.empty
     let mut rest := jobs
     let mut steps : List Json := []
+    let parOf := fun (tb : Table) (order : List Nat) => match tb.header with
+      | none => Json.mkObj [("kind", "nofile")]
+      | some h => match paretoFlags h tb.rows order with
+        | .noColumn => Json.mkObj [("kind", "none")]
+        | .raises => Json.mkObj [("kind", "raises")]
+        | .flags l => Json.mkObj [("kind", "flags"), ("flags", ofBools l)]
     for oj in opsJ.toList do
+      -- `{"new_search":"fresh"|"reuse"}` : a new Search object is constructed on the log_dir
+      if let .ok c := oj.getObjVal? "new_search" then
+        let ch ← match (← c.getStr?) with
+          | "fresh" => pure EvalChoice.fresh
+          | "reuse" => pure EvalChoice.reuse
+          | x => throw s!"bad evaluator choice {x}"
+        let noReset := (fieldD oj "no_reset" (Json.bool false)).getBool?.toOption.getD false
+        let r := if noReset then searchInitNoReset ch st tbl else searchInit ch st tbl
+        st := r.1
+        tbl := r.2
+        steps := steps ++ [Json.mkObj [("branch", "new-search"), ("header", Json.null), ("rows", ofRows []),
+          ("started", st.started), ("numObjective", ofOptNat st.numObjective),
+          ("pending", Json.num (JsonNumber.fromNat st.pending.length)),
+          ("table", Json.mkObj [("header", ofHeader tbl.header), ("rows", ofRows tbl.rows)])]]
+        continue
       let p ← oj.getArr?
       match p.toList with
-      | [c, f] =>
+      | c :: f :: more =>
         let cnt ← c.getNat?
         let fl ← f.getBool?
         let b := rest.take cnt
@@ -144,19 +168,19 @@ def handle (j : Json) : Except String Json := do
         let r := if old then dumpStepOld fl st1 else dumpStep fl st1
         st := r.1
         tbl := tbl.add r.2
+        let par ← match more with
+          | [o] => do pure (parOf tbl (← jList jNat o))   -- Pareto step after this dump (end of a search() call)
+          | _ => pure Json.null
         steps := steps ++ [Json.mkObj [("branch", branch), ("header", ofHeader r.2.header),
           ("rows", ofRows r.2.rows), ("started", st.started), ("numObjective", ofOptNat st.numObjective),
-          ("pending", Json.num (JsonNumber.fromNat st.pending.length))]]
+          ("pending", Json.num (JsonNumber.fromNat st.pending.length)),
+          ("table", Json.mkObj [("header", ofHeader tbl.header), ("rows", ofRows tbl.rows)]),
+          ("pareto", par)]]
       | _ => throw "bad op"
     let order ← match j.getObjVal? "order" with
       | .ok o => jList jNat o
       | .error _ => pure []
-    let par := match tbl.header with
-      | none => Json.mkObj [("kind", "nofile")]
-      | some h => match paretoFlags h tbl.rows order with
-        | .noColumn => Json.mkObj [("kind", "none")]
-        | .raises => Json.mkObj [("kind", "raises")]
-        | .flags l => Json.mkObj [("kind", "flags"), ("flags", ofBools l)]
+    let par := parOf tbl order
     return Json.mkObj [("ok", true), ("jobs", Json.arr jobOut.toArray), ("steps", Json.arr steps.toArray),
       ("table", Json.mkObj [("header", ofHeader tbl.header), ("rows", ofRows tbl.rows)]),
       ("pareto", par)]
